@@ -154,10 +154,8 @@ func gen38(t *rapid.T, env *ev.Env) Case {
 			}
 			op.Entries = es
 		}
-		// PutObject tags trip KF-C38-4 (end-case): 7 in 8 tagged puts lose their tags in the generator
-		if op.Kind == prog.OpPut && op.Tags != nil && rapid.IntRange(0, 7).Draw(t, "keepPutTags") != 0 {
-			op.Tags = nil
-		}
+		// (KF-C38-4, KF-C38-6 and KF-C38-8 are fixed: tagged puts, REPLACE-tag copies and conditional
+		// DeleteObjects entries are no longer thinned out in the generator)
 		// version references and conditions mostly miss in a random program: half of them are dropped so
 		// that enough operations succeed (the other half keeps the failing paths populated)
 		if (op.Ver != "" || op.SrcVer != "") && rapid.Bool().Draw(t, "dropVer") {
@@ -166,18 +164,7 @@ func gen38(t *rapid.T, env *ev.Env) Case {
 		if (op.IfMatch != "" || op.IfNoneMatchStar || op.SrcCond != "") && rapid.Bool().Draw(t, "dropCond") {
 			op.IfMatch, op.IfNoneMatchStar, op.SrcCond = "", false, ""
 		}
-		// CopyObject with ReplaceTags trips KF-C38-6 and a conditional DeleteObjects entry KF-C38-8 (both
-		// end-case): 3 in 4 / 1 in 2 lose the trigger in the generator so the search continues behind them
-		if op.Kind == prog.OpCopy && op.ReplaceTags && rapid.IntRange(0, 3).Draw(t, "keepReplTags") != 0 {
-			op.ReplaceTags = false
-		}
-		if op.Kind == prog.OpDeleteObjects {
-			for j := range op.Entries {
-				if op.Entries[j].IfMatch != "" && rapid.Bool().Draw(t, "dropEntryCond") {
-					op.Entries[j].IfMatch = ""
-				}
-			}
-		}
+
 		c.Steps = append(c.Steps, Step{Op: &op})
 		if i < 2 || rapid.IntRange(0, 3).Draw(t, "query?") != 0 {
 			continue
